@@ -139,16 +139,16 @@ func c06Assignable(t, p string) bool {
 // Cases.
 
 type c06Case struct {
-	Pkg      string            `json:"pkg,omitempty"` // package (and directory) name, default p<i>
-	Name     string            `json:"name"`
-	Lox      string            `json:"lox"`
-	User     string            `json:"user"`
-	ExpectOK bool              `json:"expect_ok"`
-	Blame    []string          `json:"blame,omitempty"` // acceptable diagnostic anchors: "lox:<line>" or "go:<line>"
-	Checks   int               `json:"checks"`          // number of value-flow checks the program performs when run
+	Pkg      string   `json:"pkg,omitempty"` // package (and directory) name, default p<i>
+	Name     string   `json:"name"`
+	Lox      string   `json:"lox"`
+	User     string   `json:"user"`
+	ExpectOK bool     `json:"expect_ok"`
+	Blame    []string `json:"blame,omitempty"` // acceptable diagnostic anchors: "lox:<line>" or "go:<line>"
+	Checks   int      `json:"checks"`          // number of value-flow checks the program performs when run
 	// VerdictOnly: the case belongs to the binding matrix: verdict and diagnostics are checked, an acceptance is not compiled
-	VerdictOnly bool `json:"verdict_only,omitempty"`
-	Extra    map[string]string `json:"-"`
+	VerdictOnly bool              `json:"verdict_only,omitempty"`
+	Extra       map[string]string `json:"-"`
 }
 
 const c06LoxHead = "@lexer\nA = 'a'\nB = 'b'\nC = 'c'\nCOMMA = ','\n@frag [ \\n]+ @discard\n@parser\n"
